@@ -98,37 +98,71 @@ func VerifC19_String() {
 	vrt.Reach("done")
 }
 
-// VerifC19_Headers: field / list / set / map headers for every id, type and size.
+// VerifC19_Headers: field / list / set / map headers for every id, type and size.  A container
+// header is followed by PAD payload bytes; a header announcing more elements than there are
+// bytes left is invalid data (each element occupies >= 1 byte) and may be rejected by the reader.
 func VerifC19_Headers() {
 	p := &BinaryProtocol{Buf: make([]byte, 0, vrt.Param("CAP"))}
+	pad := vrt.Param("PAD")
 	ft := Type(vrt.U8())
 	id := FieldID(vrt.U16())
 	et := Type(vrt.U8())
 	kt := Type(vrt.U8())
 	n := int(int32(vrt.U32()))
 	vrt.Assume(ft.Valid() && ft != STOP && et.Valid() && kt.Valid() && n >= 0)
-	vrt.Assert(p.WriteFieldBegin("x", ft, id) == nil, "C19.hdr.field.write")
-	vrt.Assert(p.WriteListBegin(et, n) == nil, "C19.hdr.list.write")
-	vrt.Assert(p.WriteSetBegin(et, n) == nil, "C19.hdr.set.write")
-	vrt.Assert(p.WriteMapBegin(kt, et, n) == nil, "C19.hdr.map.write")
-	vrt.Assert(p.WriteFieldStop() == nil, "C19.hdr.stop.write")
-	ref := vrt.PutField(nil, byte(ft), int(id))
-	ref = vrt.PutListHdr(ref, byte(et), n)
-	ref = vrt.PutListHdr(ref, byte(et), n)
-	ref = vrt.PutMapHdr(ref, byte(kt), byte(et), n)
-	ref = append(ref, 0)
+	which := vrt.Param("W")
+	var ref []byte
+	switch which {
+	case 0:
+		vrt.Assert(p.WriteFieldBegin("x", ft, id) == nil, "C19.hdr.field.write")
+		vrt.Assert(p.WriteFieldStop() == nil, "C19.hdr.stop.write")
+		ref = vrt.PutField(nil, byte(ft), int(id))
+		ref = append(ref, 0)
+	case 1:
+		vrt.Assert(p.WriteListBegin(et, n) == nil, "C19.hdr.list.write")
+		ref = vrt.PutListHdr(ref, byte(et), n)
+	case 2:
+		vrt.Assert(p.WriteSetBegin(et, n) == nil, "C19.hdr.set.write")
+		ref = vrt.PutListHdr(ref, byte(et), n)
+	case 3:
+		vrt.Assert(p.WriteMapBegin(kt, et, n) == nil, "C19.hdr.map.write")
+		ref = vrt.PutMapHdr(ref, byte(kt), byte(et), n)
+	}
 	verifEqBytes(p.Buf, ref, "C19.hdr.encoding")
-	_, rft, rid, e1 := p.ReadFieldBegin()
-	vrt.Assert(e1 == nil && rft == ft && rid == id, "C19.hdr.field.roundtrip")
-	ret, rn, e2 := p.ReadListBegin()
-	vrt.Assert(e2 == nil && ret == et && rn == n, "C19.hdr.list.roundtrip")
-	ret, rn, e2 = p.ReadSetBegin()
-	vrt.Assert(e2 == nil && ret == et && rn == n, "C19.hdr.set.roundtrip")
-	rkt, rvt, rn2, e3 := p.ReadMapBegin()
-	vrt.Assert(e3 == nil && rkt == kt && rvt == et && rn2 == n, "C19.hdr.map.roundtrip")
-	_, rft, _, e1 = p.ReadFieldBegin()
-	vrt.Assert(e1 == nil && rft == STOP, "C19.hdr.stop.roundtrip")
-	vrt.Assert(p.Read == len(p.Buf), "C19.hdr.consumed")
+	for i := 0; i < pad; i++ {
+		p.Buf = append(p.Buf, 0)
+	}
+	switch which {
+	case 0:
+		_, rft, rid, e1 := p.ReadFieldBegin()
+		vrt.Assert(e1 == nil && rft == ft && rid == id, "C19.hdr.field.roundtrip")
+		_, rft, _, e1 = p.ReadFieldBegin()
+		vrt.Assert(e1 == nil && rft == STOP, "C19.hdr.stop.roundtrip")
+	case 1:
+		ret, rn, e2 := p.ReadListBegin()
+		if n <= pad {
+			vrt.Reach("fits")
+			vrt.Assert(e2 == nil && ret == et && rn == n, "C19.hdr.list.roundtrip")
+		} else {
+			vrt.Assert(e2 != nil || (ret == et && rn == n), "C19.hdr.list.roundtrip-or-error")
+		}
+	case 2:
+		ret, rn, e2 := p.ReadSetBegin()
+		if n <= pad {
+			vrt.Reach("fits")
+			vrt.Assert(e2 == nil && ret == et && rn == n, "C19.hdr.set.roundtrip")
+		} else {
+			vrt.Assert(e2 != nil || (ret == et && rn == n), "C19.hdr.set.roundtrip-or-error")
+		}
+	case 3:
+		rkt, rvt, rn2, e3 := p.ReadMapBegin()
+		if n <= pad {
+			vrt.Reach("fits")
+			vrt.Assert(e3 == nil && rkt == kt && rvt == et && rn2 == n, "C19.hdr.map.roundtrip")
+		} else {
+			vrt.Assert(e3 != nil || (rkt == kt && rvt == et && rn2 == n), "C19.hdr.map.roundtrip-or-error")
+		}
+	}
 	vrt.Reach("done")
 }
 
